@@ -44,6 +44,7 @@ between them, exactly as it happened.
 from __future__ import annotations
 
 import asyncio
+import contextlib
 import contextvars
 import re
 from typing import Any
@@ -79,6 +80,18 @@ class TxAbort(Exception):
 PREFIXES = ["", "p:", "q:"]
 TX_MODES = {"f": "FAST", "l": "LOCKED", "s": "SERIALIZABLE"}
 _LOCK_KEY = re.compile(r"^(p:|q:)?locked:K(\d+)$")
+HELPER_PREFIX = "app:"          # what the `add_prefix` helper middleware of a case puts in front of every key
+_STORED_KEY = re.compile(r"^(app:)?(p:|q:)?locked:[Kk](\d+)$")
+
+
+def canon(key):
+    """the scripted lock key behind the key a backend was handed: the key-rewriting helper middlewares of a case
+    (`add_prefix("app:")`, `all_keys_lower()`) rename lock keys consistently; anything else is returned as it is"""
+    if isinstance(key, str):
+        m = _STORED_KEY.match(key)
+        if m:
+            return f"{m.group(2) or ''}locked:K{m.group(3)}"
+    return key
 
 
 def is_lock_key(key) -> bool:
@@ -142,6 +155,7 @@ def _mk_rec_class():
             run = _current
             raw = self._raw_state(key)
             r = await super().set_lock(key, value, expire)
+            key = canon(key)
             if run is not None:
                 if is_lock_key(key):
                     run.log("set_lock", key=key, tok=value, ttl=expire, res=r, raw=raw, sec=SEC.get(), be=self.vidx)
@@ -153,6 +167,7 @@ def _mk_rec_class():
             run = _current
             raw = self._raw_state(key)
             r = await super().unlock(key, value)
+            key = canon(key)
             if run is not None:
                 if is_lock_key(key):
                     run.log("unlock", key=key, tok=value, res=r, raw=raw, sec=SEC.get(), be=self.vidx)
@@ -163,6 +178,7 @@ def _mk_rec_class():
         async def is_locked(self, key, wait=None, step=0.1):
             run = _current
             r = await super().is_locked(key, wait=wait, step=step)
+            key = canon(key)
             if run is not None:
                 run.log("probe" if is_lock_key(key) else "aux_probe", key=key, res=r, be=self.vidx)
             return r
@@ -333,7 +349,7 @@ class Run:
         if ls is None or ls[:2] != (CLOCK.t, self.ncmd) or ls[2]["be"] != be:
             self.log("sweep", task=None, did=[], be=be)
             ls = self.last_sweep = (CLOCK.t, self.ncmd, self.events[-1])
-        ls[2]["did"].append([op, key])
+        ls[2]["did"].append([op, canon(key)])
 
     def log(self, ev: str, **kw):
         if self.torn:
@@ -377,6 +393,23 @@ class Run:
 
         return mw
 
+    def _helper_middlewares(self) -> tuple:
+        """the user middlewares of cashews/helpers.py a case installs with setup(middlewares=...):
+        ["memory_limit", min_bytes, max_bytes|None], ["add_prefix"], ["lower"]"""
+        from cashews import helpers
+
+        out = []
+        for spec in self.case.get("mw") or []:
+            if spec[0] == "memory_limit":
+                out.append(helpers.memory_limit(min_bytes=spec[1], max_bytes=spec[2]))
+            elif spec[0] == "add_prefix":
+                out.append(helpers.add_prefix(HELPER_PREFIX))
+            elif spec[0] == "lower":
+                out.append(helpers.all_keys_lower())
+            else:
+                raise ValueError(f"unknown helper middleware {spec!r}")
+        return tuple(out)
+
     async def setup(self):
         from cashews import Cache, Command
 
@@ -388,7 +421,8 @@ class Run:
             scheme = "vlockg" if self.gated else "vlock"
             for b in specs:
                 be = cache.setup(f"{scheme}://?size=1000&check_interval={interval}{self.cfg['extra']}",
-                                 middlewares=(self._recording_middleware(b["p"]),), prefix=PREFIXES[b["p"]])
+                                 middlewares=(*self._helper_middlewares(), self._recording_middleware(b["p"])),
+                                 prefix=PREFIXES[b["p"]])
                 be.vidx = b["p"]
                 self.backends.append(be)
             await cache.init()
@@ -405,8 +439,8 @@ class Run:
         else:
             import cashews.decorators as decorators
 
-            if specs != [{"p": 0, "off": []}]:
-                raise ValueError("several / disabled backends need a facade configuration")
+            if specs != [{"p": 0, "off": []}] or self.case.get("mw"):
+                raise ValueError("several / disabled backends and middlewares need a facade configuration")
             backend = (cls["gated"] if self.gated else cls["rec"])(size=1000, check_interval=interval)
             await backend.init()
             self.backends.append(backend)
@@ -471,6 +505,50 @@ class Run:
             if entered:
                 self.log("tx_end", how=how)
 
+    async def consume(self, agen, sec: dict):
+        """the consumer of a locked async generator: drains it (default), or stops after n chunks -
+        ["aclose", n]: break, then `await agen.aclose()`; ["aclosing", n]: break inside `async with aclosing(agen)`;
+        ["abandon", n]: break and drop the last reference (the event loop's asyncgen finalizer closes it; timed runs only:
+        the harness then yields a few times so that the finalizer has run before the section is declared left).
+        `between` = consumer-side steps after every chunk (a cancellation landing there leaves the generator suspended
+        at its yield point)."""
+        how, n = (sec.get("consume") or ["drain", 0])[:2]
+        between = sec.get("between") or []
+        if how == "drain":
+            n = 10 ** 6
+        if self.gated and (how == "abandon" or between):
+            how = "aclosing"          # under the gate scheduler a generator is never left to the finalizer task
+        it = [agen]
+        agen = None
+
+        async def loop_():
+            got = 0
+            async for _ in it[0]:
+                got += 1
+                await self.run_steps(between)
+                if got >= n:
+                    break
+
+        if how == "aclosing":
+            async with contextlib.aclosing(it[0]):
+                await loop_()
+            return
+        try:
+            await loop_()
+            if how == "aclose":
+                await it[0].aclose()
+        finally:
+            it.clear()
+            if how == "abandon" or between:
+                interrupted = None
+                for _ in range(6):      # the finalizer hook schedules `agen.aclose()` as a task of its own
+                    try:
+                        await asyncio.sleep(0)
+                    except asyncio.CancelledError as exc:     # a cancellation landing on the harness's own wait
+                        interrupted = exc
+                if interrupted is not None:
+                    raise interrupted
+
     async def run_section(self, sec: dict):
         from cashews.exceptions import LockedError
 
@@ -478,13 +556,17 @@ class Run:
         sid = self.sec_counter
         tok = SEC.set(sid)
         ttl = None if sec["ttl"] is None else sec["ttl"] * TICK
+        if sec["ttl"] is not None and sec.get("form") and (self.cfg["facade"] or sec["via"] != "cm"):
+            # the ttl as the application would write it (timedelta, int, "1m30s", ...): `ttl_to_seconds` lowers it.
+            # (`Memory.lock(key, expire)` on a bare backend takes seconds and never converts.)
+            ttl = memhist.spell(sec["ttl"], sec["form"])
         ci = sec.get("ci", 0) * TICK
         run = self
         be = sec.get("be", 0)
         key = keyname(sec["key"], be)
         deco_prefix = PREFIXES[be] + "locked"
         self.log("sec_start", sec=sid, via=sec["via"], key=key, ttl=sec["ttl"], wait=sec["wait"],
-                 ci=sec.get("ci", 0))
+                 ci=sec.get("ci", 0), form=sec.get("form"))
 
         async def body():
             run.log("body_enter", sec=sid)
@@ -524,11 +606,16 @@ class Run:
                     try:
                         for i, st in enumerate(chunks):
                             await run.run_steps([st])
+                            run.log("gen_yield", sec=sid)        # suspended at the yield point: the consumer has the chunk
                             yield i
+                            run.log("gen_resume", sec=sid)
                         if sec.get("end", "n") == "e":
                             raise BodyError("scripted")
                     except asyncio.CancelledError:
                         how = "c"
+                        raise
+                    except GeneratorExit:
+                        how = "g"         # the consumer stopped iterating: closed at the yield point
                         raise
                     except BaseException:
                         how = "e"
@@ -536,8 +623,7 @@ class Run:
                     finally:
                         run.log("body_exit", sec=sid, how=how)
 
-                async for _ in guarded_gen(sec["key"]):
-                    pass
+                await self.consume(guarded_gen(sec["key"]), sec)
             else:
                 raise ValueError(f"unknown via {sec['via']!r}")
         except LockedError:
